@@ -418,3 +418,14 @@ package keeper
 //@ ensures err == nil ==> bech32ok(msg.Treasury) && dsAt(Store_oracle, msg.DataSourceID).Treasury == addrstr(bech32addr(msg.Treasury))
 //@ ensures err == nil ==> bech32ok(msg.Owner) && dsAt(Store_oracle, msg.DataSourceID).Owner == addrstr(bech32addr(msg.Owner)) && dsAt(Store_oracle, msg.DataSourceID).Fee == msg.Fee
 //@ ensures err != nil ==> Store_oracle == old(Store_oracle)
+
+// ---- frame of the store invariants: each record family is written only through these functions ------------------------
+// (the invariants above are proved writer by writer - "a lock has its index entry", "a record is filed under its own id";
+// a new function that Sets or Deletes such keys directly is outside that argument: ground obligation `writers/...`)
+//@ writers DataSourceStoreKey: Keeper.SetDataSource
+//@ writers OracleScriptStoreKey: Keeper.SetOracleScript
+//@ writers ReportsOfValidatorPrefixKey: Keeper.SetReport
+//@ writers RequestStoreKey: Keeper.DeleteRequest, Keeper.SetRequest
+//@ writers ResultStoreKey: Keeper.SetResult
+//@ writers SigningResultStoreKey: Keeper.SetSigningResult
+//@ writers ValidatorStatusStoreKey: Keeper.SetValidatorStatus
